@@ -69,6 +69,22 @@ def make_recogniser(t, dflt):
                         return ('old_in_file', True)
                     if l == NEW_NAME:
                         return ('new_in_file', True)
+        # the alias test made on the parsed override instead of its printed
+        # form: a `kind:match` check of kind `rule` whose match is the new
+        # name (kinds hold no colon, so this is `str(check) == 'rule:<new>'`)
+        OVR = FILE_OLD + '.check'
+        if isinstance(x, ast.Call) and isinstance(x.func, ast.Name) and \
+                x.func.id == 'isinstance' and len(x.args) == 2 and canon(
+                    U(x.args[0])) == OVR and U(x.args[1]).split('.')[-1] in (
+                        'Check', 'RuleCheck'):
+            return ('alias#1', True)
+        if isinstance(x, ast.Compare) and len(x.ops) == 1 and isinstance(
+                x.ops[0], ast.Eq):
+            l, r = canon(U(x.left)), canon(U(x.comparators[0]))
+            if {l, r} == {OVR + '.kind', "'rule'"}:
+                return ('alias#2', True)
+            if {l, r} == {OVR + '.match', NEW_NAME}:
+                return ('alias#3', True)
         txt = canon(U(x))
         if txt.endswith('.oslo_policy.enforce_new_defaults'):
             return ('enforce_new', True)
@@ -217,6 +233,19 @@ def check_table(ctx):
             if atom in lits and lits[atom] != v:
                 consistent = False
             lits[atom] = v
+        parts = [lits.pop('alias#%d' % i, None) for i in (1, 2, 3)]
+        if any(x is not None for x in parts):
+            if any(x is False for x in parts):
+                v = False
+            elif all(x is True for x in parts):
+                v = True
+            else:
+                v = None
+                unknown.append(p.conds[0])
+            if v is not None:
+                if 'alias' in lits and lits['alias'] != v:
+                    consistent = False
+                lits['alias'] = v
         if consistent:
             rows.append((lits, unknown, classify(p), p))
     nrows = 0
